@@ -357,7 +357,12 @@ def edge_cases(rng, tier):
     add('field decorator forms', TS + 'struct S { #[typeshare(swift(type = "Int"), kotlin(type = "Long", readonly), typescript(readonly, type = "number"), '
         'go(type = "int"), python(type = "int"), scala(type = "Int"))] a: u32 }\n')
     for a in ['swift(type = 3)', 'swift(= )', 'swift()', 'swift(a = "b" c)', 'swift(type = "Int",)', 'swift(type)', 'swift(r#type = "Int")', 'swift(type = "")',
-              'typescript(type = "a | b")', 'kotlin', 'kotlin = "x"', 'Swift(type = "Int")', 'sWiFt(type = "Int")', 'cobol(type = "X")', 'swift::x(y)']:
+              'typescript(type = "a | b")', 'kotlin', 'kotlin = "x"', 'Swift(type = "Int")', 'sWiFt(type = "Int")', 'cobol(type = "X")', 'swift::x(y)',
+              # entries of a language list that do not start with an identifier, in every position (seeded C07_e: a recovery path that
+              # re-reads the same comma for ever)
+              'typescript("readonly", type = "x")', 'typescript(, readonly)', 'typescript(readonly, , type = "x")', 'swift(3, type = "Int")',
+              'kotlin(type = "Long", "x", readonly)', 'go((a), type = "int")', 'python(type = "int", #)', 'scala(-1, 2, 3)', 'swift(type = 5, readonly)',
+              'typescript(readonly readonly)', 'swift(type = "Int" type = "Int")', 'kotlin(,)', 'go(,,)', "swift('a, type = \"Int\")"]:
         add(f'field attribute typeshare({a})', f'{TS}struct S {{ #[typeshare({a})] a: u32 }}\n')
         add(f'variant field attribute typeshare({a})', f'{TS}#[serde(tag = "t", content = "c")]\nenum E {{ V {{ #[typeshare({a})] a: u32 }} }}\n')
     # deep nesting
